@@ -212,7 +212,7 @@ theorem C01_dynamic_finish {r : Root} {s : Id} {ns : Node} {v : Int} {rD : Root}
     simpa using (scheduled_evolvesD hSch).trans hE
   refine ⟨?_, ?_, hEall, hsub.nodup (nodup_reverse hSch.nodup),
     fun j hj => (hreach j).1 (List.mem_reverse.1 (hsub.subset hj))⟩
-  · simp [propagateUpdates, propagateNodeUpdates, f6, hA.batching, hvis, hrun]
+  · simp [propagateUpdates, propagateNodeUpdates, f6, hA.batching, hvis, hSch.loop_resetMarks, hrun]
   · obtain ⟨_, e2, _, _, e5, e6, _⟩ := hEall.frame
     have hclean : ∀ j m, r'.get? j = some m → m.dirty = false := by
       intro j m hm
